@@ -19,19 +19,19 @@ def cfg(tier):
     if tier == "quick":
         return dict(Keys=S("1|1", "2|1"), UnknownKeys=S("9|1", "1|9", "1|0"),
                     Balances=mags([0, 5, P53 + 3]), Amounts=mags([0, 1, 5, 6, P32 + 1, P53 + 1, P63 - 1]),
-                    MaxSteps=2, EmitOneIn=8,
+                    MaxSteps=2, EmitOneIn=24, Forms=S("plain", "e164", "both"),
                     ActionSet=S("debit", "refund", "check", "enquiry"), TypeSet=S("initial", "update", "termination", "event")), 300
     return dict(Keys=S("1|1", "2|1"), UnknownKeys=S("9|1", "1|9", "1|0"),
                 Balances=mags([0, 1, 5, P31, P53 + 3, P63 - 1]),
                 Amounts=mags([0, 1, 4, 5, 6, P31 - 1, P31 + 1, P32, P53 + 1, P63 - 2, P63 - 1]),
-                MaxSteps=3, EmitOneIn=4000,
+                MaxSteps=3, EmitOneIn=12000, Forms=S("plain", "e164", "both"),
                 ActionSet=S("debit", "refund", "check", "enquiry"), TypeSet=S("initial", "update", "termination", "event")), 6000
 
 
 def to_behaviour(hist, bid):
     setup = hist[0]
     return dict(id=bid, accts=setup["accts"],
-                steps=[dict(key=s["key"], action=s["action"], type=s["type"], num=s["num"], sid=s["sid"], amt=s["amt"])
+                steps=[dict(key=s["key"], action=s["action"], type=s["type"], num=s["num"], sid=s["sid"], amt=s["amt"], form=s.get("form", "plain"))
                        for s in hist[1:]])
 
 
